@@ -948,6 +948,8 @@ def controls(repo):
     out.append(('mirror-element', text_variant(repo, 'geodepy/gnss.py', "Q[col+1, row-1] = q3", "Q[col+1, row] = q3"), 'fill::value2'))
     out.append(('zero-test-field', text_variant(repo, 'geodepy/gnss.py', 'if all(float(val)==0 for val in col[2:]):',
                                                 'if all(float(val)==0 for val in col[3:]):'), 'zero-line'))
+    out.append(('removed-numbers-as-a-range', text_variant(repo, 'geodepy/gnss.py', "        del solution_estimate\n\n        out.write(\"*-----", "        del solution_estimate\n        skip = range(skip[0], skip[-1] + 1) if skip else skip\n\n        out.write(\"*-----"), 'skip-set'))
+    out.append(('comment-lines-stripped', text_variant(repo, 'geodepy/gnss.py', '                comments.append(line.rstrip())', '                comments.append(line.strip())'), 'verbatim-lines'))
     out.append(('splice-width', text_variant(repo, 'geodepy/gnss.py', "        header = header[:15] + creation_time + header[27:]\n        old_num_params = header[60:65]",
                                              "        header = header[:15] + creation_time + header[28:]\n        old_num_params = header[60:65]"), 'header[15:28]'))
     return out
